@@ -72,6 +72,10 @@ type c06RevIn struct {
 	IV        model.Bytes `json:"iv"`
 	PadBlocks int         `json:"pad_blocks"` // -1: all 16 legal pad lengths
 	PadSeed   uint8       `json:"pad_seed"`
+	// PadStyle: 0 = octet i is (i+1)*seed; otherwise a padding convention of some other protocol, kept or broken at one place:
+	// 1 = 1,2,3,... (ESP, RFC 4303), 2 = the same with one octet off, 3 = 1,2 and then something else, 4 = every octet equals the
+	// pad length (PKCS#7-like), 5 = the same with one octet off, 6 = all zero, 7 = all 0xff
+	PadStyle uint8 `json:"pad_style,omitempty"`
 }
 
 var c06Reverse = probe.Define("C06", "reverse", func(t *rapid.T) c06RevIn {
@@ -81,6 +85,9 @@ var c06Reverse = probe.Define("C06", "reverse", func(t *rapid.T) c06RevIn {
 	in.IV = gen.Fill(t, "iv", 16)
 	in.PadBlocks = -1
 	in.PadSeed = rapid.Uint8().Draw(t, "padseed")
+	if rapid.Bool().Draw(t, "padconvention") {
+		in.PadStyle = uint8(rapid.IntRange(1, 7).Draw(t, "padstyle"))
+	}
 	return in
 }, func(in c06RevIn) probe.Outcome {
 	sa, err := bridge.NewSA(in.Suite, in.Keys)
@@ -94,7 +101,22 @@ var c06Reverse = probe.Define("C06", "reverse", func(t *rapid.T) c06RevIn {
 	for p := base; p <= 255; p += 16 {
 		pad := make([]byte, p)
 		for i := range pad {
-			pad[i] = byte(i)*in.PadSeed + in.PadSeed
+			switch in.PadStyle {
+			case 0:
+				pad[i] = byte(i)*in.PadSeed + in.PadSeed
+			case 1, 2, 3:
+				pad[i] = byte(i + 1)
+				if in.PadStyle == 3 && i >= 2 {
+					pad[i] = in.PadSeed
+				}
+			case 4, 5:
+				pad[i] = byte(p)
+			case 7:
+				pad[i] = 0xff
+			}
+		}
+		if (in.PadStyle == 2 || in.PadStyle == 5) && p > 0 {
+			pad[int(in.PadSeed)%p] ^= 0x40
 		}
 		w, err := refProtect(in.Msg, in.Suite, in.Keys, in.SendI, iv, p, pad)
 		if err != nil {
